@@ -150,6 +150,15 @@ func runC17(r *Report, tier string) {
 						cc.rsaBound = n
 					}
 				}
+				// K <= BitLen(N) / K < BitLen(N)
+				if c.Val && c.Pred.Op == "binop" && (c.Pred.S == "<=" || c.Pred.S == "<") && strings.HasPrefix(c.Pred.Args[1].String(), "call<(*math/big.Int).BitLen>") {
+					if n, ok := termConstInt(c.Pred.Args[0]); ok {
+						if c.Pred.S == "<" {
+							n++
+						}
+						cc.rsaBound = n
+					}
+				}
 				if c.Val && c.Pred.Op == "binop" && c.Pred.S == "==" {
 					for i := 0; i < 2; i++ {
 						if c.Pred.Args[i].Op == "nil" && strings.Contains(c.Pred.Args[1-i].String(), "call<(*crypto/ecdsa.PublicKey).ECDH>") {
